@@ -627,7 +627,15 @@ def run_case(case):
         return Outcome(viol, nontrivial and not viol, lab)
 
     # ------------------------------------------------------------- fit --
-    clf = clfreg.build(cfg)
+    ok, clf = guarded(clfreg.build, cfg)
+    if not ok:
+        if kind == "MixtureModelClassifier" and _raised_in_sklearn_mixture(
+                clf):
+            # pre-fitting the caller's mixture on degenerate data is rejected
+            # by scikit-learn itself: not a case of the property
+            lab.append("mixture_prefit_rejected_by_sklearn")
+            return done()
+        raise HarnessError(f"cannot build {comp}: {clf!r}")
     ok, r = guarded(_fit, clf, case, X, y, w)
     if not ok:
         if kind == "MixtureModelClassifier" and _raised_in_sklearn_mixture(r):
